@@ -37,9 +37,8 @@ let () =
         let dfc = str_ dfc in
         let c = container_ c in
         let obs = list_ (list_ str_) obs in
-        let model = match M.c06_model dfc c with
-          | M.Ok l -> List [Atom "ok"; of_list of_str l]
-          | M.Panic -> List [Atom "panic"] in
+        (* the model is total since the camelCase guards; the tag is kept for the python side *)
+        let model = List [Atom "ok"; of_list of_str (M.c06_model dfc c)] in
         List [model;
               of_bool (M.c06_in_domain c);
               of_list of_bool (M.c06_classes c);
@@ -53,9 +52,7 @@ let () =
     match list s with
     | [dfc; k; ctoks; items] ->
         let kind = match atom k with "struct" -> M.KStruct | "enum" -> M.KEnum | _ -> failwith "c06: bad kind" in
-        (match M.c06_model_raw (str_ dfc) kind (list_ str_ ctoks) (list_ (pair_ str_ (list_ str_)) items) with
-         | M.Ok l -> List [Atom "ok"; of_list of_str l]
-         | M.Panic -> List [Atom "panic"])
+        List [Atom "ok"; of_list of_str (M.c06_model_raw (str_ dfc) kind (list_ str_ ctoks) (list_ (pair_ str_ (list_ str_)) items))]
     | _ -> failwith "c06-eval-raw: bad case");
   Registry.register "keys" (fun s ->
     (* (type-name file-text) -> () when the file is outside the module grammar, else ((decls)) *)
